@@ -351,6 +351,7 @@ def check_history(ctx, name, desc, build, new_prior=None, ops=("MAP", "MAP"), sa
 
 
 
+STATED = {}        # session 3: stated phantoms (model / documented formulas), set by run()
 RETAINED = []      # G8: (label, returned object, copy at return time) — re-verified at the very end of the run
 
 
@@ -773,12 +774,29 @@ def case_deconv1d(ctx, cuqi, T, B1, B2, cfg, sid):
     if tp is not None:
         retain_tp("Deconvolution1D", tp)
     # leaves
-    try:
-        with quiet():
-            x_leaf = (np.array(ph[1]).astype(cfg.get("dtype", "float64")).astype(float) if ph[0] == "arr"
-                      else np.asarray(T._getExactSolution(dim, ph[1], ph[2]), dtype=float))
-    except Exception:
-        x_leaf = None
+    # the STATED phantom: a user array as given; a named phantom from the model (square/hat/pc/skyscraper, exact) or the
+    # documented formula written in the harness — never from `_getExactSolution`
+    x_leaf = None
+    if ph[0] == "arr":
+        x_leaf = np.array(ph[1]).astype(cfg.get("dtype", "float64")).astype(float)
+    else:
+        st_ = STATED["phantoms"].get(dim, ph[1], ph[2]) if STATED.get("phantoms") is not None else None
+        ctx.extra_cov.setdefault("stated_phantom", {}).setdefault(f"{ph[1].lower()}:{'none' if st_ is None else st_[0]}", 0)
+        ctx.extra_cov["stated_phantom"][f"{ph[1].lower()}:{'none' if st_ is None else st_[0]}"] += 1
+        if st_ is not None and st_[0] == "ok":
+            x_leaf = np.array(st_[1], dtype=float)
+            if st_[2] and tp is not None:          # a mesh node exactly on a threshold: float rounding may decide either way
+                xi_ = A1(tp.exactSolution)
+                for i_, alts_ in st_[2].items():
+                    if i_ < xi_.size and any(abs(xi_[i_] - a_) <= 1e-15 for a_ in alts_):
+                        x_leaf[i_] = xi_[i_]
+        elif st_ is not None and st_[0] == "nan":
+            x_leaf = np.full(dim, np.nan)
+            if tp is not None and not np.any(np.isnan(A1(tp.exactSolution))):
+                ctx.disagree("tie:Deconvolution1D:phantom:nan", desc, "a phantom containing 0/0", list(A1(tp.exactSolution)[:8]), "model: the phantom contains NaN")
+                ctx.fail("tie:Deconvolution1D:phantom:nan", desc, "the stated phantom", list(A1(tp.exactSolution)[:8]), "exactSolution is not the stated phantom")
+        elif st_ is not None and st_[0] == "raises" and tp is not None:
+            pass        # handled below: a constructed problem with x_leaf None is reported as an accepted undocumented option
     if x_leaf is not None and len(x_leaf) == dim and not np.all(np.isfinite(x_leaf)):
         ctx.case("deconv1d-nan-phantom", desc, nontrivial=False)
         ctx.note(f"phantom leaf has non-finite entries (degenerate size), skipped: dim={dim} phantom={ph}")
@@ -1221,23 +1239,64 @@ def case_deconv2d(ctx, cuqi, T, B1, B2, cfg, sid):
 # ----------------------------------------------------------------------------- Poisson1D / Heat1D / Abel1D
 def gen_field(rng, dim, allow_kl=True):
     r = rng.random()
-    if r < 0.5:
+    if r < 0.4:
         return ("none",)
-    if r < 0.7:
+    if r < 0.55:
         return ("step", rng.choice([s for s in (1, 2, 3) if s <= dim]))
-    if r < 0.85 and allow_kl and dim >= 4:
+    if r < 0.67 and allow_kl and dim >= 4:
         return ("kl", rng.choice([2, 3]))
-    return ("map-exp",)
+    if r < 0.77:
+        return ("map-exp",)
+    # field_type given as a Geometry OBJECT, with and without map/imap; string field types combined with a map
+    k = rng.choice(["geom-cont", "geom-cont+map", "geom-step", "geom-step+map", "step+map", "kl+map"])
+    if k == "kl+map" and not (allow_kl and dim >= 4):
+        k = "geom-cont+map"
+    if "step" in k:
+        return (k, rng.choice([s for s in (1, 2, 3) if s <= dim]))
+    if k.startswith("kl"):
+        return (k, rng.choice([2, 3]))
+    return (k,)
 
 
-def field_kwargs(field, map_names=("map", "imap")):
-    if field[0] == "step":
-        return {"field_type": "Step", "field_params": {"n_steps": field[1]}}
-    if field[0] == "kl":
-        return {"field_type": "KL", "field_params": {"num_modes": field[1]}}
-    if field[0] == "map-exp":
-        return {map_names[0]: (lambda x: np.exp(x)), map_names[1]: (lambda x: np.log(x))}
-    return {}
+def f_base(field):
+    return field[0].split("+")[0]
+
+
+def f_mapped(field):
+    return field[0] == "map-exp" or field[0].endswith("+map")
+
+
+def field_setup(field, grid, map_names=("map", "imap")):
+    """constructor keywords for the stated field options, and the STATED parameter-to-field map written from the
+    documentation independently of the constructor: the expansion of the stated type on the stated grid (the geometry
+    classes are C13's subject; instantiated here directly, a separate instance from the one handed to the constructor),
+    followed by the stated `map` ("an underlying MappedGeometry is created which applies the mapping on the field")."""
+    from cuqi.geometry import Continuous1D, StepExpansion, KLExpansion
+    base, mapped = f_base(field), f_mapped(field)
+    kw = {}
+    grid = np.asarray(grid, dtype=float)
+    if base == "step":
+        kw.update(field_type="Step", field_params={"n_steps": field[1]})
+        g = StepExpansion(grid.copy(), n_steps=field[1])
+    elif base == "kl":
+        kw.update(field_type="KL", field_params={"num_modes": field[1]})
+        g = KLExpansion(grid.copy(), num_modes=field[1])
+    elif base == "geom-cont":
+        kw.update(field_type=Continuous1D(grid.copy()))
+        g = None
+    elif base == "geom-step":
+        kw.update(field_type=StepExpansion(grid.copy(), n_steps=field[1]))
+        g = StepExpansion(grid.copy(), n_steps=field[1])
+    else:
+        g = None
+    if mapped:
+        kw[map_names[0]] = (lambda x: np.exp(x))
+        kw[map_names[1]] = (lambda x: np.log(x))
+
+    def stated(p):
+        f = np.asarray(p, dtype=float) if g is None else A1(g.par2fun(np.asarray(p, dtype=float)))
+        return np.exp(f) if mapped else f
+    return kw, stated
 
 
 def snr_checks(ctx, B2, name, tp, desc, S, snr, sid, fwd_model, logd_scale=1.0, positive=False):
@@ -1278,7 +1337,9 @@ def case_poisson(ctx, cuqi, B1, B2, cfg, sid):
     dim, ep, field, snr, obs, src, xs_custom = cfg["dim"], cfg["endpoint"], cfg["field"], cfg["SNR"], cfg["obs"], cfg["source"], cfg["exactSolution"]
     desc = {"problem": "Poisson1D", **{k: (list(v) if isinstance(v, tuple) else v) for k, v in cfg.items()}}
     N = dim - 1
-    kw = dict(dim=dim, endpoint=ep, SNR=snr, **field_kwargs(field))
+    with quiet():
+        fkw, stated_field = field_setup(field, np.linspace(0, ep, dim, endpoint=True))
+    kw = dict(dim=dim, endpoint=ep, SNR=snr, **fkw)
     sources = {"default": None, "const": (lambda xs: 1.0 + 0 * xs), "lin": (lambda xs: 1.0 + 2.0 * xs)}
     if src != "default":
         kw["source"] = sources[src]
@@ -1342,10 +1403,17 @@ def case_poisson(ctx, cuqi, B1, B2, cfg, sid):
     # forward through parameters (geometry maps are leaves: par2fun of the implementation)
     with quiet():
         p = np.round(rs.randn(tp.model.domain_dim) * 2) / 4.0
-        if field[0] in ("none", "step"):
+        if f_base(field) != "kl" and not f_mapped(field):
             p = np.abs(p) + 0.5
         try:
-            kp = A1(tp.model.domain_geometry.par2fun(p))
+            # the STATED field of the parameters (stated expansion, then the stated map) — not the implementation's par2fun
+            kp = A1(stated_field(p))
+            kp_impl = A1(tp.model.domain_geometry.par2fun(p))
+            ctx.extra_cov.setdefault("pde_field_kinds", {}).setdefault("Poisson1D:" + field[0], 0)
+            ctx.extra_cov["pde_field_kinds"]["Poisson1D:" + field[0]] += 1
+            if kp_impl.shape != kp.shape or not vclose(kp_impl, kp, 1e-10):
+                ctx.fail("Poisson1D:field:par2fun", {**desc, "p": [float(v) for v in p[:6]]}, list(kp[:6]), list(kp_impl[:6]),
+                         "the domain geometry of the model is not the stated field expansion followed by the stated map")
             if np.all(np.isfinite(kp)) and np.all(kp > 0.05):
                 tests.append(("par", kp, p))
                 lines.append(f"poisson {N} {q(dxF)} {qv(kp)} {qv(rhs)} {','.join(str(i) for i in obs_idx) if obs_idx else '_'}")
@@ -1396,8 +1464,8 @@ def case_poisson(ctx, cuqi, B1, B2, cfg, sid):
             ctx.fail("Poisson1D:exactSolution", desc, xs_custom[:6], list(xs[:6]), "exactSolution is not the one passed")
         caller_objects_check(ctx, "Poisson1D", desc, kw, before, "construction+forward")
         alias_check(ctx, "Poisson1D", desc, tp)
-        snr_checks(ctx, B2, "Poisson1D", tp, desc, S, snr, sid, None, logd_scale=(0.25 if field[0] in ("kl", "map-exp") else 1.0),
-                   positive=(field[0] in ("none", "step")))
+        snr_checks(ctx, B2, "Poisson1D", tp, desc, S, snr, sid, None, logd_scale=(0.25 if (f_base(field) == "kl" or f_mapped(field)) else 1.0),
+                   positive=(f_base(field) != "kl" and not f_mapped(field)))
 
     B1.add(lines, cb)
 
@@ -1407,7 +1475,9 @@ def case_heat(ctx, cuqi, B1, B2, cfg, sid):
     dim, ep, mt, field, snr, obs, xs_custom = cfg["dim"], cfg["endpoint"], cfg["max_time"], cfg["field"], cfg["SNR"], cfg["obs"], cfg["exactSolution"]
     desc = {"problem": "Heat1D", **{k: (list(v) if isinstance(v, tuple) else v) for k, v in cfg.items()}}
     N = dim
-    kw = dict(dim=dim, endpoint=ep, max_time=mt, SNR=snr, **field_kwargs(field))
+    with quiet():
+        fkw, stated_field = field_setup(field, np.linspace(float(Fraction(ep) / (N + 1)), ep, N, endpoint=False))
+    kw = dict(dim=dim, endpoint=ep, max_time=mt, SNR=snr, **fkw)
     if obs != "none":
         kw["observation_grid_map"] = obs_map(obs, ep)
     if xs_custom is not None:
@@ -1466,7 +1536,13 @@ def case_heat(ctx, cuqi, B1, B2, cfg, sid):
     with quiet():
         p = np.round(rs.randn(tp.model.domain_dim) * 2) / 4.0
         try:
-            up = A1(tp.model.domain_geometry.par2fun(p))
+            up = A1(stated_field(p))                                 # stated expansion, then the stated map
+            up_impl = A1(tp.model.domain_geometry.par2fun(p))
+            ctx.extra_cov.setdefault("pde_field_kinds", {}).setdefault("Heat1D:" + field[0], 0)
+            ctx.extra_cov["pde_field_kinds"]["Heat1D:" + field[0]] += 1
+            if up_impl.shape != up.shape or not vclose(up_impl, up, 1e-10):
+                ctx.fail("Heat1D:field:par2fun", {**desc, "p": [float(v) for v in p[:6]]}, list(up[:6]), list(up_impl[:6]),
+                         "the domain geometry of the model is not the stated field expansion followed by the stated map")
             if np.all(np.isfinite(up)) and up.size == N:
                 tests.append(("par", up, p))
                 lines.append(hline(up))
@@ -1533,7 +1609,9 @@ def case_abel(ctx, cuqi, B1, B2, cfg, sid):
     from cuqi.testproblem import Abel1D
     dim, ep, field, snr = cfg["dim"], cfg["endpoint"], cfg["field"], cfg["SNR"]
     desc = {"problem": "Abel1D", **{k: (list(v) if isinstance(v, tuple) else v) for k, v in cfg.items()}}
-    kw = dict(dim=dim, endpoint=ep, SNR=snr, **field_kwargs(field, ("KL_map", "KL_imap")))
+    with quiet():
+        fkw, stated_field = field_setup(field, np.linspace(0, ep, dim), ("KL_map", "KL_imap"))
+    kw = dict(dim=dim, endpoint=ep, SNR=snr, **fkw)
     with scripted(sid) as S, quiet():
         try:
             tp = Abel1D(**kw)
@@ -1575,14 +1653,20 @@ def case_abel(ctx, cuqi, B1, B2, cfg, sid):
         with quiet():
             p = np.round(rs.randn(tp.model.domain_dim) * 2) / 4.0
             try:
-                fp = A1(tp.model.domain_geometry.par2fun(p))
+                fp = A1(stated_field(p))                                 # stated expansion, then the stated map
+                fp_impl = A1(tp.model.domain_geometry.par2fun(p))
+                ctx.extra_cov.setdefault("pde_field_kinds", {}).setdefault("Abel1D:" + field[0], 0)
+                ctx.extra_cov["pde_field_kinds"]["Abel1D:" + field[0]] += 1
+                if fp_impl.shape != fp.shape or not vclose(fp_impl, fp, 1e-10):
+                    ctx.fail("Abel1D:field:par2fun", {**desc, "p": [float(v) for v in p[:6]]}, list(fp[:6]), list(fp_impl[:6]),
+                             "the domain geometry of the model is not the stated field expansion followed by the stated map")
                 got = A1(tp.model.forward(p))
                 if np.all(np.isfinite(fp)) and not vclose(got, Aref @ fp, 1e-10):
                     ctx.disagree("tie:Abel1D:forward-par", desc, list((Aref @ fp)[:6]), list(got[:6]))
                     ctx.fail("tie:Abel1D:forward-par", desc, list((Aref @ fp)[:6]), list(got[:6]), "forward(parameters) is not the Abel operator applied to the field")
             except Exception as e:
                 ctx.note(f"Abel forward(par) raised at {desc}: {repr(e)[:80]}")
-        snr_checks(ctx, B2, "Abel1D", tp, desc, S, snr, sid, None, logd_scale=(0.25 if field[0] in ("kl", "map-exp") else 1.0))
+        snr_checks(ctx, B2, "Abel1D", tp, desc, S, snr, sid, None, logd_scale=(0.25 if (f_base(field) == "kl" or f_mapped(field)) else 1.0))
 
     B1.add([f"abel {dim} {q(ep)}"], cb)
 
@@ -1692,6 +1776,8 @@ def run(ctx):
                         "a default (unset) geometry is compatible with any geometry of the same parameter dimension (the code's own policy in Posterior.geometry)",
                         "sigma = ||exactData||/SNR is the stated SNR convention of Poisson1D/Heat1D/Abel1D"]
     B1, B2 = Batch(), Batch()
+    from harness.props import c17_ext as _ext0
+    STATED["phantoms"] = _ext0.StatedPhantoms(ctx, list(range(1, 14)) + [16, 24, 32, 33])
     from cuqi.testproblem import Deconvolution1D as _D1n
     sid = [1000 * (ctx.seed + 1)]
 
@@ -1778,6 +1864,13 @@ def run(ctx):
         for dim_, mt_, fld in ((6, 0.2, ("none",)), (8, 0.05, ("step", 2)), (5, 0.2, ("map-exp",))):
             case_heat(ctx, cuqi, B1, B2, dict(dim=dim_, endpoint=rng.choice([1, 0.5]), max_time=mt_, field=fld, SNR=50, obs=kind,
                                              exactSolution=(None if fld[0] != "none" else [float((3 * i) % 5 - 1) for i in range(dim_)])), nid())
+
+    # ---- field_type as a Geometry OBJECT and as a string type, each with and without map/imap (fixed, every run): the
+    #      forward model on parameters must be  p -> PDE/quadrature( map( stated expansion (p) ) )
+    for fld in (("geom-cont",), ("geom-cont+map",), ("geom-step", 2), ("geom-step+map", 2), ("step+map", 3), ("kl+map", 2)):
+        case_poisson(ctx, cuqi, B1, B2, dict(dim=6, endpoint=(2.0 if "step" in fld[0] else 1), field=fld, SNR=50, obs="none", source="lin", exactSolution=None), nid())
+        case_heat(ctx, cuqi, B1, B2, dict(dim=5, endpoint=(0.5 if "step" in fld[0] else 1), max_time=0.05, field=fld, SNR=50, obs="none", exactSolution=None), nid())
+        case_abel(ctx, cuqi, B1, B2, dict(dim=5, endpoint=1, field=fld, SNR=20), nid())
 
     # ---- G1: non-float64 user arrays (phantom / PSF / exactSolution / data) must give the float64 results
     for dt in ("int64", "int32", "float32", "bool", "uint8", "int8", "float16", "uint16"):
@@ -2072,10 +2165,21 @@ def run(ctx):
         cfg = dict(noise_std=rng.choice([None, 1, 0.5, 2.0, 0.125]), data=rng.choice([None, 1, 3.5, -2.0, 0.0]), prior=rng.choice(["none", "gauss", "gauss-q"]))
         case_wang(ctx, cuqi, B1, B2, cfg, nid())
 
+    # ---- session 3: named PSF builders / option glue inside the model (Model/C17_psf.lean); lines ride in the second batch
+    from harness.props import c17_ext as _ext
+    _ext.psf_streams(ctx, cuqi, T, B2)
+
+    _ext.phantom_stream(ctx, cuqi, STATED["phantoms"])
+    _ext.grid_stream(ctx, cuqi, B2)
+
     B1.run(ctx)
     B2.run(ctx)
 
     verify_retained(ctx)
+
+    # ---- instance independence (histories over SEVERAL problem instances; placed last because it modifies what problems hand out)
+    from harness.props import c17_ext
+    c17_ext.instance_histories(ctx, cuqi, T)
 
     # malformed protocol lines: the driver must not default
     bad = ["dc1 zero x 1,2", "leg 8", "noise gaussian 1/0 1 1", "poisson 3 0 1,1,1,1 1,1,1 0", "comp Foo", "heat 3 1 1/5 1,2 0", "wang 1", ""]
